@@ -50,7 +50,7 @@ func (ioFaults) Meta() core.EngineMeta {
 		Rule:       "Reader side: a reference stream is served by a SimReader that fails with a sentinel error at byte offset k - for EVERY k in [0,len] of short streams (a stride of offsets for long ones), one-shot and sticky, as (0,E) and (sticky only) together with the bytes below k, on seekable/plain/bufio readers with seeded chunk plans, explicit and auto-detected size, NextPacket and NextData. Writer side: a Muxer history (tables, WriteData whose last packet needs 0, 1, 2 or many stuffing bytes, adaptation-field variants, WritePacket) runs on a SimWriter that fails at Write call j - for EVERY j of the fault-free run (a stride for long ones), one-shot and permanent, (0,E) and short writes. evaluations = faulted executions; distinct = (side, API, reader kind/size mode or op kind of the failing call, fault mode, position class: in auto-detection / packet boundary / inside packet; for the writer the field class of the failing Write: header, adaptation field, payload, stuffing, table); non-trivial = the fault actually fired inside a call (always by construction; counted).",
 		Real:       []string{"astits.Demuxer", "astits.Muxer", "astikit.BitsWriter", "bufio.Reader"},
 		Stub:       []string{"SimReader / SimWriter with a materialised fault plan", "refts reference multiplexer (reader side input)"},
-		FaultKinds: []string{"reader-fault-oneshot", "reader-fault-sticky", "reader-fault-partial", "reader-fault-in-autodetect", "writer-fault-oneshot", "writer-fault-permanent", "writer-fault-short", "writer-fault-in-tables", "writer-fault-in-stuffing-af", "writer-fault-in-writepacket"},
+		FaultKinds: []string{"reader-fault-oneshot", "reader-fault-sticky", "reader-fault-partial", "reader-fault-in-autodetect", "writer-fault-oneshot", "writer-fault-permanent", "writer-fault-short", "writer-fault-in-tables", "writer-fault-in-writepacket"},
 		Assumptions: []string{
 			"the (n>0, E) reader form is only used with sticky errors: io.ReadFull legitimately drops an error that arrives together with the bytes completing its buffer, and a well-behaved reader then repeats it",
 			"nothing is asserted about calls made after the call that reported the failure (writer: except that later calls during which a Write fails report it too)",
@@ -335,9 +335,12 @@ func ioWriter(sc *IOFaultScenario, out *core.Outcome) {
 				// classify the failing Write by its offset within the packet being written
 				off := (ms.W.Calls[j].Off) % 188
 				switch {
-				case opk == "tables" || (opk == "data" && ms.W.Calls[j].Len == 188):
+				case opk == "tables":
 					fieldClass = "table-packet"
 					out.Fire("writer-fault-in-tables")
+				case opk == "data" && ms.W.Calls[j].Len >= 188:
+					fieldClass = "table-packet"
+					out.Probe("writer-fault-in-auto-tables")
 				case off < 4:
 					fieldClass = "ts-header"
 				case ms.W.Calls[j].Len > 1:
@@ -350,7 +353,8 @@ func ioWriter(sc *IOFaultScenario, out *core.Outcome) {
 				}
 				// the 1- and 2-byte stuffing adaptation fields sit right after the header
 				if opk == "data" && off == 4 && ms.W.Calls[j].Len == 1 {
-					out.Fire("writer-fault-in-stuffing-af")
+					// (a probe, not a required fault kind: it only exists while the library writes byte-wise)
+					out.Probe("writer-fault-in-stuffing-af")
 					fieldClass = "af-length-byte"
 				}
 			}
